@@ -50,10 +50,9 @@ theorem render_selfClose (n : List Char) (sh : Option SVal) (ps : List (List Cha
 /-- the conditions on an open or self-closing marker with properties -/
 structure HeadOk (n : List Char) (sh : Option SVal) (ps : List (List Char × SVal)) (ws : List (List Char)) : Prop where
   name : isIdent n = true
-  short : ∀ v, sh = some v → valOk v = true ∧ notDec v = true
+  short : ∀ v, sh = some v → valOk v = true
   props : PropsOk ps
   ws : wsOk ws = true
-  norepl : isReplName n = false
 
 theorem trimRule_eq (S : St) (st : LoopSt) (m : Marker) (isSelf : Bool) (hout : st.out = S.out)
     (hlast : isSpace st.last = S.lastWs) (htag : (m.tag == .selfClose) = isSelf) :
@@ -67,9 +66,9 @@ theorem trimRule_eq (S : St) (st : LoopSt) (m : Marker) (isSelf : Bool) (hout : 
   · rfl
 
 theorem stepSim_opn_props (pfuel : Nat) (n : List Char) (sh : Option SVal) (ps : List (List Char × SVal))
-    (ws : List (List Char)) (hok : HeadOk n sh ps ws) : StepSim pfuel (.opn n sh ps ws) := by
+    (ws : List (List Char)) (hok : HeadOk n sh ps ws) (hnr : isReplName n = false) : StepSim pfuel (.opn n sh ps ws) := by
   intro S S' R st s hp hinv hstep
-  have hrepl : isReplacement (String.ofList n) = false := by rw [isReplacement_ofList]; exact hok.norepl
+  have hrepl : isReplacement (String.ofList n) = false := by rw [isReplacement_ofList]; exact hnr
   -- the specification's step
   simp only [stepChunk, bind, Option.bind] at hstep
   cases hres : resolve n sh ps with
@@ -123,11 +122,11 @@ theorem stepSim_opn_props (pfuel : Nat) (n : List Char) (sh : Option SVal) (ps :
 
 
 theorem stepSim_selfClose_props (pfuel : Nat) (n : List Char) (sh : Option SVal) (ps : List (List Char × SVal))
-    (ws : List (List Char)) (hok : HeadOk n sh ps ws) : StepSim pfuel (.selfClose n sh ps ws) := by
+    (ws : List (List Char)) (hok : HeadOk n sh ps ws) (hnr : isReplName n = false) : StepSim pfuel (.selfClose n sh ps ws) := by
   intro S S' R st s hp hinv hstep
-  have hrepl : isReplacement (String.ofList n) = false := by rw [isReplacement_ofList]; exact hok.norepl
+  have hrepl : isReplacement (String.ofList n) = false := by rw [isReplacement_ofList]; exact hnr
   -- the specification's step
-  simp only [stepChunk, bind, Option.bind, hok.norepl, Bool.false_eq_true, if_false] at hstep
+  simp only [stepChunk, bind, Option.bind, hnr, Bool.false_eq_true, if_false] at hstep
   cases hres : resolve n sh ps with
   | none => simp [hres] at hstep
   | some props =>
@@ -192,14 +191,13 @@ def isPropsChunk (c : Chunk) : Bool :=
     | .repl _ _ _ _ _ _ _ => false)
 
 theorem headOk_of (n : List Char) (sh : Option SVal) (ps : List (List Char × SVal)) (ws : List (List Char))
-    (h1 : headOk n sh ps ws = true) (h2 : isReplName n = false) (h3 : ((sh.map notDec).getD true) = true)
-    (h4 : ps.all (fun q => notDec q.2) = true) : HeadOk n sh ps ws := by
-  simp only [headOk, Bool.and_eq_true, List.all_eq_true] at h1 h4
-  refine ⟨h1.1.1.1, ?_, ?_, h1.2, h2⟩
+    (h1 : headOk n sh ps ws = true) : HeadOk n sh ps ws := by
+  simp only [headOk, Bool.and_eq_true, List.all_eq_true] at h1
+  refine ⟨h1.1.1.1, ?_, ?_, h1.2⟩
   · intro v hv; subst hv
-    exact ⟨by simpa using h1.1.1.2, by simpa using h3⟩
+    simpa using h1.1.1.2
   · intro q hq
-    exact ⟨(h1.1.2 q hq).1, (h1.1.2 q hq).2, h4 q hq⟩
+    exact ⟨(h1.1.2 q hq).1, (h1.1.2 q hq).2⟩
 
 theorem stepSim_props (pfuel : Nat) (c : Chunk) (h : isPropsChunk c = true) : StepSim (pfuel + 1) c := by
   unfold isPropsChunk at h
@@ -212,13 +210,13 @@ theorem stepSim_props (pfuel : Nat) (c : Chunk) (h : isPropsChunk c = true) : St
   | escClose => exact stepSim_esc _ _ (Or.inr rfl)
   | opn n sh ps ws =>
     simp only [chunkOk, Bool.and_eq_true, Bool.not_eq_true'] at h
-    exact stepSim_opn_props _ n sh ps ws (headOk_of n sh ps ws h.1.1 h.1.2 h.2.1 h.2.2)
+    exact stepSim_opn_props _ n sh ps ws (headOk_of n sh ps ws h.1.1) h.1.2
   | selfClose n sh ps ws =>
     simp only [chunkOk, Bool.and_eq_true, Bool.not_eq_true'] at h
-    exact stepSim_selfClose_props _ n sh ps ws (headOk_of n sh ps ws h.1 h.2.1.1 h.2.1.2 h.2.2)
+    exact stepSim_selfClose_props _ n sh ps ws (headOk_of n sh ps ws h.1) h.2.1.1
   | close n ws =>
     simp only [chunkOk, Bool.and_eq_true, Bool.not_eq_true'] at h
-    exact stepSim_close (pfuel + 1) n ws h.1.1 h.2 h.1.2
+    exact stepSim_close (pfuel + 1) n ws h.1.1 h.1.2
   | closeAll ws =>
     simp only [chunkOk, Bool.and_true] at h
     exact stepSim_closeAll (pfuel + 1) ws h
